@@ -16,6 +16,43 @@ NUMS = [("0", 0.0), ("(0 * -1)", -0.0), ("1", 1.0), ("(0.1 + 0.2)", 0.1 + 0.2), 
         ("(0 / 0)", math.nan), ("(-(0 / 0))", math.nan), ("9007199254740992", 2.0 ** 53), ("9007199254740993", 9007199254740993.0),
         ("(1e308 * 10)", math.inf), ("5e-324", 5e-324), ("1.5", 1.5), ("-1", -1.0), ("1e21", 1e21), ("255", 255.0), ("(2 - 1)", 1.0)]
 OTHERS = ["nil", "true", "false", "'a'", "''", "[1]", "'1'"]
+
+
+def _ieee(op, a, b):
+    if op == "+":
+        return a + b
+    if op == "-":
+        return a - b
+    if op == "*":
+        return a * b
+    if b == 0:
+        if a == 0 or math.isnan(a):
+            return math.nan
+        return math.copysign(math.inf, a) * math.copysign(1.0, b)
+    try:
+        return a / b
+    except OverflowError:
+        return math.copysign(math.inf, a) * math.copysign(1.0, b)
+
+
+def _derived():
+    """numbers computed at run time from two of NUMS: the bit patterns arithmetic can produce (signed NaNs, signed zeros, infinities, subnormals,
+    sums that round) rather than the ones a literal can. One expression per (operator, operand pair); REPS keeps one per distinct IEEE result."""
+    import struct
+    out, reps, seen = [], [], set()
+    for (na, va), (nb, vb) in itertools.product(NUMS, repeat=2):
+        for op in "+-*/":
+            v = _ieee(op, va, vb)
+            name = "(%s %s %s)" % (na, op, nb)
+            out.append((name, v))
+            bits = struct.pack(">d", v) if not math.isnan(v) else b"nan" + bytes([int(math.copysign(1, va) < 0) ^ int(math.copysign(1, vb) < 0), "+-*/".index(op)])
+            if bits not in seen:
+                seen.add(bits)
+                reps.append((name, v))
+    return out, reps
+
+
+DERIVED, REPS = _derived()
 CMP = [("==", lambda a, b: a == b), ("!=", lambda a, b: a != b), ("<", lambda a, b: a < b), ("<=", lambda a, b: a <= b),
        (">", lambda a, b: a > b), (">=", lambda a, b: a >= b)]
 
@@ -73,6 +110,17 @@ class C14(Check):
             yield ("pair", a, b)
         for a in vals:
             yield ("single", a)
+        # numbers produced by arithmetic at run time
+        specials = [n for n, v in NUMS if v == 0 or math.isinf(v) or math.isnan(v)]
+        for a, _ in DERIVED:
+            yield ("single", a)
+        for a, _ in (DERIVED if tier == "thorough" else REPS):
+            for b in (vals if tier == "thorough" else specials + ["nil", "'1'"]):
+                yield ("pair", a, b)
+                yield ("pair", b, a)
+        if tier == "thorough":
+            for (a, _), (b, _) in itertools.product(REPS, repeat=2):
+                yield ("pair", a, b)
         for i in range(len(self.progs)):
             yield ("corpus", i)
 
@@ -111,9 +159,10 @@ def main(tier):
     enum_r = map_cases(cases, build="checked", horizon_ms=20000)
     nan_r = map_cases(cases, build="nan", horizon_ms=20000)
     numd = dict(NUMS)
+    numd.update(dict(DERIVED))
     merged = {"specs": len(specs), "evaluations": 2 * len(specs), "nontrivial": 0, "outcomes": {}, "failures": [], "fail_count": 0, "known": {},
               "samples": [], "capped": False, "restarts": 0, "classes": {}, "extra": {}, "errors": []}
-    special = {n for n, v in NUMS if v == 0 or math.isinf(v) or math.isnan(v) or abs(v) >= 2 ** 53 or (0 < abs(v) < 1e-300)}
+    special = {n for n, v in NUMS + DERIVED if v == 0 or math.isinf(v) or math.isnan(v) or abs(v) >= 2 ** 53 or (0 < abs(v) < 1e-300)}
     for idx, (spec, c, e, n) in enumerate(zip(specs, cases, enum_r, nan_r)):
         for r in (e, n):
             merged["classes"][r.get("class")] = merged["classes"].get(r.get("class"), 0) + 1
